@@ -113,11 +113,10 @@ LEVEL_TEXT = ("Machine-checked proof (Coq 8.16 + std++) over the executable Conf
               "through all four paths (requests, JSON state file with the master's load loop, protobuf blob, serde_json of "
               "the state) and compared with the extracted model's verdict; the property's oracle is evaluated on the "
               "implementation.")
-LEVEL_NOTE = ("PARTIAL: the universally quantified replay theorem is proved for states whose bucket sections (backends, tcp/udp "
-              "frontends, certificates) are empty (listeners with activation, clusters with health checks, http/https "
-              "frontends: exact equality, all requests accepted) together with order-independence of each map-backed "
-              "section; the bucket sections and the full reachable-state invariant are covered by the correspondence runs "
-              "only. Equality is modulo empty buckets. The byte encodings (serde_json, prost) are exercised, not modelled: the "
-              "theorem covers the request-level replay; the three encoded paths are tied to it by correspondence only. "
-              "The process hand-over of the upgrade (UpgradeData over a pipe) is C10.")
+LEVEL_NOTE = ("The request-level theorem (replay_generate) is proved at full strength for every reachable state and all "
+              "eleven maps, modulo empty buckets, with the reachable-state invariant proved inductive; order-independence "
+              "is proved for the map-backed sections (listeners, clusters, http/https frontends) and holds by the same "
+              "lemmas for any order of the buckets. The byte encodings (serde_json, prost, the \\n\\0 framing and the "
+              "master's load_state buffer loop) are exercised on every case, not modelled: the three encoded paths are "
+              "tied to the theorem by correspondence only. The process hand-over of the upgrade is C10.")
 TECHNIQUE = "Rocq/Coq proof over an executable Gallina model (std++ gmap) + differential correspondence (extracted OCaml vs real crate, four replay paths)"
